@@ -220,6 +220,8 @@ Definition sys_now (y : sys) : N := N.max (cl_now (y_cl y)) (gw_now (y_gw y)).
 Inductive sys_event :=
 | SCall (id : N) (a : api)
 | SBpub (m : mq_pkt)          (* a PUBLISH originated by the broker (another client published) *)
+| SBurst (ms : list mq_pkt)   (* several such PUBLISHes back to back: the gateway has handled all of them before
+                                 the client's answer to the first one arrives *)
 | SAdv (d : N).
 
 Definition sys_step (cfg : e2e_cfg) (y : sys) (ev : sys_event) : sys * list sys_out :=
@@ -233,6 +235,10 @@ Definition sys_step (cfg : e2e_cfg) (y : sys) (ev : sys_event) : sys * list sys_
     if b_closed (y_br y) then (y, []) else
     let '(y1, tr1) := pump pump_fuel cfg y [FromBroker m] in
     (y1, SoBS (gw_now (y_gw y)) m :: tr1)
+  | SBurst ms =>
+    if b_closed (y_br y) then (y, []) else
+    let '(y1, tr1) := pump pump_fuel cfg y (map FromBroker ms) in
+    (y1, map (SoBS (gw_now (y_gw y))) ms ++ tr1)
   | SAdv d => advance_to adv_fuel cfg y (sys_now y + d)
   end.
 
